@@ -111,6 +111,7 @@ type vHistory struct {
 	Rec    [][3]string `json:"rec"` // hash, sig, recovered address or ""
 	Mon    []string    `json:"mon"`
 	Shape  string      `json:"shape"`
+	Faults bool        `json:"faults,omitempty"` // a fault was injected (store closed, request queue full): monitors only, no model comparison
 }
 
 // ---------------------------------------------------------------- the driver
@@ -143,7 +144,15 @@ type vDriver struct {
 	bodyOf   map[string]string // digest -> hex body of the own observation
 	dueMiss  map[string]int    // digest -> consecutive ticks at which a retry was due and did not happen
 	lastObs  *gossipv1.SignedObservation
+	foReal   map[string]time.Time // digest -> firstObserved as left by the previous step (real clock)
+	txOf     map[string]string    // digest -> hex tx hash of the chain message the node observed
+	chainOf  map[string]uint32    // digest -> emitter chain of that message
+	dbDown   bool                 // the store was closed on purpose (fault injection)
+	fillReq  bool                 // fault injection: the outbound re-observation queue is full when the tick runs
 }
+
+// own-signature loopbacks that never arrived (a mutated tree may drop them): after the first misses stop waiting long
+var vLoopMisses int
 
 func vNewDriver(t *testing.T, root context.Context, own *ecdsa.PrivateKey, govChain vaa.ChainID, govAddr vaa.Address, id int) *vDriver {
 	dir, err := os.MkdirTemp(os.Getenv("VERIF_TMP"), "procdb")
@@ -160,7 +169,7 @@ func vNewDriver(t *testing.T, root context.Context, own *ecdsa.PrivateKey, govCh
 		fs: map[string]int64{}, lr: map[string]int64{}, ids: map[string]vaa.VAAID{}, dbSnap: map[string]string{},
 		keccakT: map[string]string{}, signT: map[string]string{}, recT: map[string]string{},
 		localGS: map[string]*common.GuardianSet{}, localIdx: map[string]bool{}, accepted: map[string]map[ethcommon.Address]bool{},
-		pubCount: map[string]int{}, sawLocal: map[string]bool{}, bodyOf: map[string]string{}, dueMiss: map[string]int{}}
+		pubCount: map[string]int{}, sawLocal: map[string]bool{}, bodyOf: map[string]string{}, dueMiss: map[string]int{}, foReal: map[string]time.Time{}, txOf: map[string]string{}, chainOf: map[string]uint32{}}
 	dr.p = NewProcessor(root, d, nil, nil, dr.sendC, dr.obsvC, dr.reqC, nil, nil, &ecdsasigner.ECDSAPrivateKey{Value: own},
 		common.NewGuardianSetState(nil), reporter.EventListener(zap.NewNop()), nil, govChain, govAddr)
 	dr.h = &vHistory{K: "hist", ID: id, Own: hex.EncodeToString(crypto.PubkeyToAddress(own.PublicKey).Bytes()), OwnKey: hex.EncodeToString(crypto.FromECDSA(own)), GovCh: uint16(govChain),
@@ -284,8 +293,9 @@ drain2:
 			case o := <-dr.obsvC:
 				dr.pending = append(dr.pending, o)
 				add(outObs(5, o), "spawn "+hex.EncodeToString(o.Hash)[:16])
-			case <-time.After(10 * time.Second):
-				dr.h.Mon = append(dr.h.Mon, "harness: own observation was not looped back within 10 s")
+			case <-time.After(vLoopWait()):
+				vLoopMisses++
+				dr.h.Mon = append(dr.h.Mon, "C02: the node signed an observation but its own signature was not looped back into aggregation")
 			}
 		}
 	}
@@ -301,6 +311,8 @@ drain2:
 		cur := ""
 		if err == nil {
 			cur = hex.EncodeToString(vb)
+		} else if dr.dbDown {
+			continue
 		}
 		if cur != dr.dbSnap[k] {
 			if cur == "" {
@@ -325,6 +337,19 @@ drain2:
 	st.OutHash = sum
 	// state projection
 	st.StateHash, st.NEntries, st.State = dr.project()
+	// C14: no handler may move the first-observed instant of an existing entry (the entry would never age); the cleanup op rewrites
+	// the instants itself (virtual clock), every other op must leave them alone
+	for dg, s := range dr.p.state.vaaSignatures {
+		if t0, had := dr.foReal[dg]; had && op.K != "cleanup" && !s.firstObserved.Equal(t0) {
+			dr.h.Mon = append(dr.h.Mon, "C14: the first-observed instant of an existing aggregation entry was moved by a "+op.K+" step (such an entry does not age)")
+		}
+		dr.foReal[dg] = s.firstObserved
+	}
+	for dg := range dr.foReal {
+		if _, ok := dr.p.state.vaaSignatures[dg]; !ok {
+			delete(dr.foReal, dg)
+		}
+	}
 	// virtual clock bookkeeping
 	for dg, s := range dr.p.state.vaaSignatures {
 		if _, ok := dr.fs[dg]; !ok {
@@ -344,6 +369,13 @@ drain2:
 	}
 	dr.h.Steps = append(dr.h.Steps, st)
 	return st.Panic == ""
+}
+
+func vLoopWait() time.Duration {
+	if vLoopMisses >= 2 {
+		return 100 * time.Millisecond
+	}
+	return 5 * time.Second
 }
 
 func (dr *vDriver) project() (uint64, int, []string) {
@@ -567,6 +599,10 @@ func (dr *vDriver) opMsg(k *common.MessagePublication) bool {
 		dr.h.Mon = append(dr.h.Mon, "C04: the digest the node signed for a chain message differs from the digest of the VAA built from the message's fields alone")
 	}
 	if signed {
+		dr.txOf[dg] = hex.EncodeToString(k.TxHash[:])
+		dr.chainOf[dg] = uint32(k.EmitterChain)
+	}
+	if signed {
 		dr.localGS[dg] = gsBefore
 		dr.localIdx[dg] = true
 		dr.sawLocal[dg] = true
@@ -708,6 +744,11 @@ func (dr *vDriver) opCleanup() bool {
 			}
 			bf[dg] = b
 		}
+		if dr.fillReq {
+			for len(dr.reqC) < cap(dr.reqC) {
+				dr.reqC <- &gossipv1.ObservationRequest{ChainId: 65535}
+			}
+		}
 		dr.p.handleCleanup(dr.ctx)
 	})
 	st := dr.h.Steps[len(dr.h.Steps)-1]
@@ -718,6 +759,18 @@ func (dr *vDriver) opCleanup() bool {
 	for dg, b := range bf {
 		s, alive := dr.p.state.vaaSignatures[dg]
 		if alive && s.retryCount > b.retries {
+			if tx, have := dr.txOf[dg]; have && !dr.h.Faults {
+				want := fmt.Sprintf("obsreq %d %s", dr.chainOf[dg], tx)
+				found := false
+				for _, o := range st.Outs {
+					if o == want {
+						found = true
+					}
+				}
+				if !found {
+					dr.h.Mon = append(dr.h.Mon, "C14: the retry of a pending own observation did not issue a re-observation request for the originating transaction on the emitter chain")
+				}
+			}
 			dr.lr[dg] = dr.T
 			if b.age < 300 {
 				dr.h.Mon = append(dr.h.Mon, "C14: own observation re-broadcast before the entry was five minutes old")
